@@ -81,6 +81,16 @@ def gen_cases_for(tier_, seed_):
         cases.append({"kind": "disable", "name": name, "strings": rng.sample(strings, min(len(strings), 300))})
     for name in ["date", "time", "datetime", "IsoTimeString", "IsoDatetimeString"]:
         cases.append({"kind": "disable", "name": name, "registered_twice": True, "strings": rng.sample(strings, min(len(strings), 300)) + ["10:30:00", "2018-01-02T10:30:00", "2018-01-02"]})
+    # strings side by side in one list / one mapping: each must be classified as if it stood alone
+    for i in range(400 if tier_ == "quick" else 6000):
+        r = rng_for(PROP, "coll", seed_, i)
+        pool = [s for s in strings if len(s) < 30]
+        cases.append({"kind": "collection", "order": r.choice([NAMES, NAMES, NAMES[:3]] + orders[:50]), "strings": r.sample(pool, r.randint(2, 4)),
+                      "as": r.choice(["list", "dict"])})
+    # types registered after the generator was created (same registry object) must count like types registered before
+    for i in range(60 if tier_ == "quick" else 600):
+        r = rng_for(PROP, "late", seed_, i)
+        cases.append({"kind": "late", "strings": r.sample(strings, r.randint(2, 4)) + r.sample(["2018-01-02", "10:30:00", "2018-01-02T10:30:00", "x" * 25], 2)})
     # multi-string fields end to end
     for i in range(300 if tier_ == "quick" else 5000):
         r = rng_for(PROP, "multi", seed_, i)
@@ -268,6 +278,47 @@ def run_case(case):
                         W("disabled-type-in-output", f"{smp['a']!r} annotated {ann[0]} after remove_by_name({name!r})")
         cnt = {"disable_detections": n, "types_removed": len(should_go)}
         nontrivial = bool(should_go)
+    elif kind == "collection":
+        from ..monitors import dump_type
+        reg = driver.make_str_registry(case["order"])
+        g = MetadataGenerator(str_types_registry=reg, dict_keys_fields=["a"] if case["as"] == "dict" else None)
+        ss = case["strings"]
+        together = {"a": list(ss)} if case["as"] == "list" else {"a": {f"k{j}": x for j, x in enumerate(ss)}}
+        apart = [{"a": [x]} if case["as"] == "list" else {"a": {"k": x}} for x in ss]
+        try:
+            t1 = g.generate(together)["a"]
+            t2 = g.generate(*apart)["a"]
+            t3 = g.generate({"a": list(reversed(ss))} if case["as"] == "list" else {"a": {f"k{j}": x for j, x in enumerate(reversed(ss))}})["a"]
+            d1, d2, d3 = (repr(dump_type(t, lambda m: 0)) for t in (t1, t2, t3))
+            if d1 != d2 or d1 != d3:
+                W("classification-depends-on-neighbours", f"strings {ss!r} (registry {case['order']}) side by side in one {case['as']} are typed {t1}, one per sample {t2}, "
+                                                          f"reversed {t3}")
+        except Exception as e:
+            W(f"detection-raises:{type(e).__name__}", f"generate over {ss!r} raised {type(e).__name__}: {e}")
+        cnt = {"collections": 1}
+        nontrivial = True
+    elif kind == "late":
+        from ..monitors import dump_type
+        from json_to_models.dynamic_typing import register_datetime_classes
+        reg = driver.make_str_registry(NAMES[:3])
+        g = MetadataGenerator(str_types_registry=reg)
+        register_datetime_classes(reg)  # after the generator exists
+        g2 = MetadataGenerator(str_types_registry=driver.make_str_registry(NAMES))
+        ss = case["strings"]
+        try:
+            forms = ([{"a": x, "b": [x]} for x in ss], [{"a": ss}])
+            for samples in forms:
+                t1 = g.generate(*samples)
+                t2 = g2.generate(*samples)
+                d1, d2 = repr(dump_type(t1, lambda m: 0)), repr(dump_type(t2, lambda m: 0))
+                if d1 != d2:
+                    W("late-registered-types-treated-differently", f"strings {ss!r}: generator created before register_datetime_classes() gives {t1}, "
+                                                                   f"generator created after gives {t2}")
+                    break
+        except Exception as e:
+            W(f"detection-raises:{type(e).__name__}", f"{type(e).__name__}: {e}")
+        cnt = {"late_registrations": 1}
+        nontrivial = True
     else:  # multi: several strings in one field, end to end
         reg = driver.make_str_registry(case["order"])
         g = MetadataGenerator(str_types_registry=reg)
@@ -304,4 +355,4 @@ def main():
     v.extra["resolve_subsets_exhaustive"] = True
     v.extra["ordered_subregistries_exhaustive"] = tier() == "thorough"
     return v.finish(floor_nontrivial=50, monitors_required=("detections", "detected_pseudo", "resolve_calls", "resolve_single_results",
-                                                             "roundtrips", "disable_detections", "multi_fields"))
+                                                             "roundtrips", "disable_detections", "multi_fields", "collections", "late_registrations"))
